@@ -13,7 +13,7 @@ ID = 'C01'
 
 MANIFEST = {
     'engine': 'symx',
-    'text': 'Bounded symbolic model checking of the real kernel source: for every pair of code vectors within the bound (n<=4 codes<3 quick; n<=6 binary, n<=5 ternary, n=4 quaternary thorough) z3 shows on every path that the returned value equals the plug-in MI written from its definition; symmetry, range, constant-vector and self-score corollaries are separate obligations. Path sets are certified complete (decision-tree audit, unsat of the uncovered remainder).',
+    'text': 'Bounded symbolic model checking of the real kernel source: for every pair of code vectors within the bound (n<=4 codes<3 quick; n<=6 binary, n<=5 ternary, n=4 quaternary thorough) z3 shows on every path that the returned value equals the plug-in MI written from its definition; symmetry, range, constant-vector and self-score corollaries are separate obligations. Path sets are certified complete (decision-tree audit, unsat of the uncovered remainder). A further condition uses codes {0, 7, 2^20-1} (the top of the documented code range; the 2^20-cell histogram is modelled as a write log).',
     'note': 'Exact reals instead of float32/fastmath (compiled kernel compared per path within 2e-4); numba = identity decorator; numpy replaced by the xnp stand-in; nothing is claimed beyond the stated n and code bounds.',
     'technique': 'symbolic execution of the real Python source with z3 (linear real arithmetic over If-tables, ln as free constants per prime), per-path unsat of result != definition',
 }
